@@ -115,9 +115,9 @@ type c12World struct {
 	ops     []c12Op
 	initial map[string]int32
 	// observations
-	maxShared, rebalances, groupsCreated, groupsClosed, served, restoreDiffers, restoreChecked int
-	withRestore                                                                                bool
-	checkFrom                                                                                  int // steps below this index were already checked on an identical prefix
+	maxShared, groupsCreated, groupsClosed, served, restoreDiffers, restoreChecked int
+	withRestore                                                                    bool
+	checkFrom                                                                      int // steps below this index were already checked on an identical prefix
 }
 
 var c12StreamNames, c12MemberNames = func() (a, b [32]string) {
